@@ -61,10 +61,18 @@ CHECKS = {
          "Templates = program pool (every 499th / 41st member of the quick S family, clean and injected): the full orbit of the temporaries a template mentions (all injective assignments of <= 3 slots to t0-t6), the full orbit of its saved registers (<= 3 slots to s0-s11, up to 1320) and label renamings from an 8-identifier pool; the diagnostics of every renamed program, compared by (code, statement index, operand role, register mapped back), must equal the template's.",
          "Trusted: renaming on the harness AST. Canonical hash-order schedule (label hash order is C10's subject).",
          "DESIGN.md 3 C14"),
+ "C16": ("bounded-exhaustive enumeration of programs over a label-structure alphabet; oracle recomputed from the text (defined / undefined / duplicate labels) plus location checks by the locator",
+         "All programs of 1..4 (quick) / 1..5 (thorough) lines over 17 symbols (definitions of A and B incl. duplicates, uses of A, B and undefined U, V in j / beq / jal / la, ret, an instruction, an exit, .data / .word / .text): Manager::run must succeed or fail with a specific error that names exactly the undefined labels at one of their uses, or the duplicated label at a later definition, or is otherwise located on text of the file - never a generic unexpected/assertion error, never the nil file; for every 50th failing program the error must be visible in the default output of the rva binary.",
+         "Trusted: the harness's textual notion of definition/use. Programs are tiny; richer failure modes (if any exist) outside the alphabet are not covered.",
+         "DESIGN.md 3 C16"),
  "C17": ("bounded-exhaustive enumeration of literal spellings against independent literal semantics",
          "Complete enumeration of a finite family: ~8000 spellings (every boundary value 2^k, 2^k+-1 for k<=33 and bit patterns x decimal/hex/binary notation x sign x letter case x leading zeros, every printable ASCII character literal and escape, malformed spellings) x 4 operand contexts (li, lui, .word, csrr), each through the real lexer+parser and, for li/lui, the resulting Constant fact of the value analysis, in a release and an overflow-checked build; acceptance, value and error location are compared with literal semantics written in the harness.",
          "Trusted: the harness's literal semantics (accept iff well-formed and -2^31 <= v <= 2^32-1; value v mod 2^32; lui 0..2^20-1). Values between the boundary points are not enumerated. Leading-zero decimals, negative lui operands and CSR numbers > 4095 get no verdict.",
          "DESIGN.md 3 C17"),
+ "C19": ("bounded-exhaustive enumeration of dump values (all variants x boundary parameters, all pairs for injectivity) and of kernel-program dumps with single-fact perturbations",
+         "(a) ~950 values - every AvailableValue variant x {0, 1, -1, 5, MIN, MAX} x registers/labels/CSR numbers, every MemoryLocation variant x boundary offsets incl. i32::MIN, every register set of <= 2 registers and the full set - each in a one-node dump: dump -> load -> dump is a textual fixed point, the loaded structure equals the written one field by field (through NodeWrapper's public fields, hook H7), and no two different values share a dump (all pairs); (b) the dump of every 41st/31st kernel program: same round trip, every single-fact perturbation of the analysis result (a live-in/out bit, a register fact, a stack fact, an edge, at every node) must change the dump, and the --yaml output of the rva binary must load to the same structure; release and overflow-checked builds.",
+         "Trusted: serde_yaml. Function-annotation perturbations are not possible through the public API and are covered only by the round trip.",
+         "DESIGN.md 3 C19"),
 }
 
 ALL = ["C%02d" % i for i in range(1, 20)]
